@@ -619,8 +619,19 @@ def norm(t):
     k = t[0]
     if k in ('ref', 'deref'):
         return t[1]
-    if k == 'field' and t[2] == '0' and isinstance(t[1], tuple) and t[1] and t[1][0] == 'bin':
+    if k == 'field' and t[2] == '0' and isinstance(t[1], tuple) and t[1] and t[1][0] in ('bin', 'const'):
         return t[1]
+    if k == 'bin' and t[2][:1] == ('const',) and t[3][:1] == ('const',) and len(t[2]) == 2 and len(t[3]) == 2:
+        a, b = t[2][1], t[3][1]
+        try:
+            v = {'Add': lambda: a + b, 'Sub': lambda: a - b if a >= b else None, 'Mul': lambda: a * b,
+                 'Shl': lambda: a << b if b < 256 else None, 'Shr': lambda: a >> b, 'BitAnd': lambda: a & b,
+                 'BitOr': lambda: a | b, 'BitXor': lambda: a ^ b, 'Div': lambda: a // b if b else None,
+                 'Rem': lambda: a % b if b else None}.get(t[1], lambda: None)()
+        except Exception:
+            v = None
+        if v is not None:
+            return ('const', v)
     if k == 'bin' and t[1] == 'Div' and t[3][0] == 'const' and t[3][1] > 0 and (t[3][1] & (t[3][1] - 1)) == 0:
         return ('bin', 'Shr', t[2], ('const', t[3][1].bit_length() - 1))
     if k == 'bin' and t[1] == 'Mul' and t[3][0] == 'const' and t[3][1] > 0 and (t[3][1] & (t[3][1] - 1)) == 0:
